@@ -77,8 +77,14 @@ def r08_1(ctx, prog, crate, rec):
     for sp in rec.sync_closures:
         cb = prog.bodies.get((b.crate, sp, -1))
         bodies, ext, _ = prog.callee_closure([cb], crate=b.crate)
+        from .common import pure_waiter as _pw
+        callers_ = [x for x in bodies if any(_pw(prog, x, c) for c in x.live_calls())]
+        helpers_ = {x.path for x in bodies if x.live_calls() and set(c.callee for c in x.live_calls()) == {"std::sync::Barrier::wait"} and any(
+            any(_pw(prog, y, c) and (c.name == x.path or c.callee == x.path) for c in y.live_calls()) for y in callers_)}
         for sb in bodies:
-            if not any(c.callee == "std::sync::Barrier::wait" for c in sb.calls):
+            if sb.path in helpers_:
+                continue    # `if let Some(b) = barrier { b.wait() }` factored out: counted as a wait where it is called
+            if not any(c.callee == "std::sync::Barrier::wait" for c in sb.calls) and sb not in callers_:
                 if sb.path not in rec.sync_closures:
                     continue
                 # the wrapper closure: forwards barrier and flag unchanged
@@ -91,8 +97,8 @@ def r08_1(ctx, prog, crate, rec):
                 continue
             ctx.saw(sb)
 
-            def tag(c):
-                if c.callee == "std::sync::Barrier::wait":
+            def tag(c, sb=sb):
+                if c.callee == "std::sync::Barrier::wait" or _pw(prog, sb, c):
                     return "wait"
                 if c.callee.endswith("ThreadAllocInfo::clear"):
                     return "clear"
